@@ -68,7 +68,7 @@ SIG = [
     ('XNPV', 'nrr', [N(1, 10), R([[-100], [60], [70]]), R([[D(43831)], [D(44197)], [D(44562)]])]),
     # --- lookup
     ('CHOOSE', 'nLLL', [N(2), T('x'), T('y'), T('z')]),
-    ('MATCH', 'aRn', [N(2), R([[1], [2], [3]]), N(0)]),
+    ('MATCH', 'aRa', [N(2), R([[1], [2], [3]]), N(0)]),
     ('VLOOKUP', 'aRna', [N(2), R([[1, 10], [2, 20], [3, 30]]), N(2), B]),
     # --- aggregates over argument lists and ranges
     ('SUM', 'vvv', [N(1), N(2), N(4)]), ('SUM', 'rv', [R([[1, 2, 4]]), N(8)]), ('SUM', 'r', [R([[1, 2], [4, 8]])]),
